@@ -350,6 +350,16 @@ func (f File) Generate(inputWriter io.Writer, settings GenerateSettings) error {
 	imports := []string{}
 	potentialImports := []string{}
 	settings.importTypeAliases = make(map[string]string)
+	if len(settings.imported) != 0 {
+		// f is a copy of the caller's File, but its slices share the caller's backing arrays:
+		// cap them at their length so that the appends below never write into memory the
+		// caller (or a concurrent Generate on the same File) can reach.
+		f.Consts = f.Consts[:len(f.Consts):len(f.Consts)]
+		f.Structs = f.Structs[:len(f.Structs):len(f.Structs)]
+		f.Unions = f.Unions[:len(f.Unions):len(f.Unions)]
+		f.Messages = f.Messages[:len(f.Messages):len(f.Messages)]
+		f.Enums = f.Enums[:len(f.Enums):len(f.Enums)]
+	}
 	switch settings.ImportGenerationMode {
 	case ImportGenerationModeSeparate:
 		for _, imp := range settings.imported {
